@@ -662,6 +662,12 @@ macro_rules! algorithm {
                 is_prefix = true;
                 if iter.is_buffer_empty() {
                     into_error!(Empty, iter.cursor());
+                } else if $is_partial
+                    && matches!(iter.peek(), Some(&c) if char_to_digit_const(c, radix).is_none())
+                {
+                    // The partial parser stops here: a prefix without digits
+                    // is as empty as it is for the complete parser.
+                    into_error!(Empty, iter.cursor());
                 } else {
                     start_index += 1;
                 }
